@@ -96,17 +96,17 @@ Qed.
 Theorem validate_total_lemma : forall t ids,
   origins_present (t_matrices t) ->
   (forall d r, t_crs t <> CrsRef d r) ->
-  ids <> [] ->
   (forall root d, find_tm 0 (t_matrices t) = Some root -> max_list ids = Some d ->
      1 <= tm_tileWidth root /\ 0 <= d /\ d + Z.log2 (tm_tileWidth root) + 4 < 64) ->
   validate t ids <> VPanic.
 Proof.
-  intros t ids HO HC HI HR. unfold validate.
+  intros t ids HO HC HR. unfold validate.
   destruct (isQuadTree t) eqn:EQ.
   2: discriminate.
   2:{ exfalso. eapply isQuadTree_no_panic; eauto. }
-  destruct (max_list ids) as [d|] eqn:EM.
-  2:{ destruct ids; [contradiction|discriminate]. }
+  destruct ids as [|i0 r]; [discriminate|].
+  destruct (ids_exist t (i0 :: r)); [|discriminate].
+  destruct (max_list (i0 :: r)) as [d|] eqn:EM; [|discriminate].
   unfold deviationVerdict, matrixBoundingBox.
   destruct (find_tm 0 (t_matrices t)) as [root|] eqn:ER; [|discriminate].
   assert (HIn := find_tm_in _ _ _ ER).
@@ -129,13 +129,23 @@ Proof.
   destruct (Z.eqb_spec (2 ^ (d + Z.log2 (tm_tileWidth root) + 4)) 0); [lia|discriminate].
 Qed.
 
-(** without them it does panic: witnesses on a built-in set (known finding F12) *)
-Lemma validate_panics_empty_ids : exists t, decodeTMS gen_doc_WebMercatorQuad = Ok t /\ validate t [] = VPanic.
-Proof. eexists. split; [vm_compute; reflexivity|vm_compute; reflexivity]. Qed.
-
-Lemma validate_panics_deep_id : exists t, decodeTMS gen_doc_WebMercatorQuad = Ok t /\
-  validate t [52] = VPanic /\ validate t [51] = Accept /\ validate t [-13] = VPanic.
+(** regression (F12, repaired in /repo 29667b5): requested ids that are not tile matrices of the set, and an empty
+    request, are errors -- they used to panic (slices.Max of an empty list; integer divide by zero at level >= 64) *)
+Lemma validate_ids_regression : exists t, decodeTMS gen_doc_WebMercatorQuad = Ok t /\
+  validate t [] = Reject 12 /\ validate t [52] = Reject 13 /\ validate t [-13] = Reject 13 /\ validate t [30] = Reject 13 /\
+  validate t [24] = Accept.
 Proof. eexists. split; [vm_compute; reflexivity|]. repeat split; vm_compute; reflexivity. Qed.
+
+(** the level bound of the totality theorem cannot be dropped for arbitrary records: a 60-level quadtree (no built-in
+    set has more than 25 levels; the CLI loads built-in sets only) still panics in FromTileMatrixSet *)
+Definition deep_tm (z : Z) : tileMatrix :=
+  MkTM (itoa z) "" "" None (Dec 1 0) (Dec (2 ^ (70 - z)) 0) CornerUnset (Some (Dec 0 0, Dec 0 0)) 256 256 (2 ^ z) (2 ^ z) None.
+Definition deep_set : tms :=
+  MkTMS "deep" "" "" None "" None "" None (CrsURI "" "http://www.opengis.net/def/crs/EPSG/0/3857" true)
+        (map (fun n => (Z.of_nat n, deep_tm (Z.of_nat n))) (seq 0 60)).
+
+Lemma validate_level_bound_needed : isQuadTree deep_set = Accept /\ validate deep_set [51] = Accept /\ validate deep_set [52] = VPanic.
+Proof. repeat split; vm_compute; reflexivity. Qed.
 
 (** ** The built-in sets, by computation over the regenerated documents *)
 Definition builtin_names : list string :=
